@@ -96,8 +96,8 @@ class Model:
             o.write('M %s %s %d\n' % (hx(msg.get('msgtype').strip()), name, 1 if (msg.get('msgcat') or '').strip().lower() == 'admin' else 0))
             out = []
             # -F extra fields: f8c inserts them into the message element with sequence 0, i.e. in front of the
-            # schema's own members, in the order given on the command line (placement is not documented; mirrored here)
-            for (num, fname, typ, mm) in self.xf:
+            # schema's own members, ordered among themselves by field number (placement is not documented; mirrored here)
+            for (num, fname, typ, mm) in sorted(self.xf):
                 if name in mm:
                     out.append((0, num, int(mm[name]), 'f'))
             self.members(msg, 0, True, out)
